@@ -260,7 +260,21 @@ func docTemplateData(seed uint64, dir string) *document.TemplateData {
 	r := newRng(seed)
 	td := document.NewTemplateData()
 	for i, name := range []string{"logo", "photo"} {
-		switch r.intn(3) {
+		switch r.intn(4) {
+		case 3:
+			// with or without a description and a title, with or without a configuration of its own
+			var cfg *document.ImageConfig
+			if r.chance(40) {
+				cfg = &document.ImageConfig{Size: &document.ImageSize{Width: 20, KeepAspectRatio: true}}
+			}
+			alt, title := "", ""
+			if r.chance(50) {
+				alt = fmt.Sprintf("alt %d", r.intn(50))
+			}
+			if r.chance(50) {
+				title = fmt.Sprintf("title %d", r.intn(50))
+			}
+			td.SetImageWithDetails(name, "", imageBytes("png", 4+i), cfg, alt, title)
 		case 0:
 			td.SetImageFromData(name, imageBytes("png", 4+i), nil)
 		case 1:
